@@ -15,7 +15,7 @@ RULE = ("trees of conventional test classes (*Test.java, *Tests.java, anything u
         "exactly one call) in random order, @Test / @Ignore alone or together in either order, helper and plain methods; "
         "flat and Maven layouts; non-trivial = at least one expected finding; distinct = distinct input")
 TRUSTED_BASE = C01.TRUSTED_BASE
-ASSUMPTIONS = ["helpers contain only assertion or plain calls; an assertion is a call whose lower-cased name starts with one of "
+ASSUMPTIONS = ["a method-level finding is identified by the line of the method's NAME (the statement does not fix it; the full pass records that line since 00fa4f2)", "helpers contain only assertion or plain calls; an assertion is a call whose lower-cased name starts with one of "
                "assert/should/check/maynotbe/is/spec/verify (the documented list)"]
 
 def gen_test_class(rng, pkg, name, path):
@@ -106,7 +106,7 @@ def gen_test_class(rng, pkg, name, path):
             elif kind == "new": atoms.append(["new"])
             elif kind == "helper_assert": atoms.append(["helper", "1"])
             elif kind == "helper_plain": atoms.append(["helper", "0"])
-        xm.append([m.name, str(u.toks[m.first].line), "1" if test else "0", "1" if ignore else "0", atoms])
+        xm.append([m.name, str(u.toks[m.name_tok].line), "1" if test else "0", "1" if ignore else "0", atoms])
     return u, xm
 
 def gen(rng):
